@@ -864,6 +864,27 @@ func getAllSegmentsInAggs(queryInfo *QueryInformation, qsrs []*QuerySegmentReque
 		return nil, 0, 0, err
 	}
 
+	// While a segment is being rotated it is added to the rotated metadata before it is
+	// removed from the unrotated info, so it can be in both lists; its statistics must be
+	// merged only once. The unrotated request falls back to the rotated files when it runs.
+	if len(unrotatedQSR) > 0 && len(rotatedQSR) > 0 {
+		unrotatedKeys := make(map[string]struct{}, len(unrotatedQSR))
+		for _, qsr := range unrotatedQSR {
+			unrotatedKeys[qsr.segKey] = struct{}{}
+		}
+		dedupedRotatedQSR := make([]*QuerySegmentRequest, 0, len(rotatedQSR))
+		for _, qsr := range rotatedQSR {
+			if _, ok := unrotatedKeys[qsr.segKey]; ok {
+				if rotatedRawCount > 0 {
+					rotatedRawCount--
+				}
+				continue
+			}
+			dedupedRotatedQSR = append(dedupedRotatedQSR, qsr)
+		}
+		rotatedQSR = dedupedRotatedQSR
+	}
+
 	if config.IsS3Enabled() {
 		rotatedSegments := getRotatedSegments(rotatedQSR)
 		if hook := hooks.GlobalHooks.AddUsageForRotatedSegmentsHook; hook != nil {
